@@ -638,6 +638,7 @@ func runConc(args []string) {
 		ho = 2
 	}
 	pubsubHandover(seed, ho, want, enc)
+	pubsubPrune(seed, ho, want, enc)
 	bv := rounds
 	if bv > 3 && os.Getenv("VERIF_TIER") != "thorough" {
 		bv = 3
